@@ -83,6 +83,35 @@ def convertGoal (g : AbsGoal) : ConvGoal :=
 def objBnd (fix : Bool) (v cr : Rat) : EVal × EVal :=
   if fix then (.fin v, .fin v) else (.ninf, .fin (v + cr))
 
+/-- WHEN the two options (`fix_minimized_values`, `constraint_relaxation`) of the retained objective row of a
+    priority are read from `goal_programming_options()` (a user override may depend on the active priority,
+    tracked through `priority_started`) -/
+inductive OptRead where
+  /-- while that priority is the active one: after its `priority_started`, before the next one's -/
+  | ownPriority
+  /-- when the NEXT priority is transcribed (after the next `priority_started`) -/
+  | nextPriority
+deriving Repr, DecidableEq
+
+/-- `GoalProgrammingMixin` (keep-soft): `__add_subproblem_objective_constraint` reads the options itself and is
+    called at the end of the loop body of its priority -/
+def keepSoftOptRead : OptRead := .ownPriority
+
+/-- `SinglePassGoalProgrammingMixin`: the two options are stored right after the priority's solve and
+    `transcribe` of the next priority uses the stored values -/
+def singlePassOptRead : OptRead := .ownPriority
+
+/-- options in force for the retained objective row of priority index `j`; `opts i` = what
+    `goal_programming_options()` returns while priority index `i` is active -/
+def optsForRow (r : OptRead) (opts : Nat → Bool × Rat) (j : Nat) : Bool × Rat :=
+  match r with
+  | .ownPriority => opts j
+  | .nextPriority => opts (j + 1)
+
+/-- bounds of the retained objective row of priority index `j` (`vals j` = its optimum) -/
+def rowBnd (r : OptRead) (opts : Nat → Bool × Rat) (vals : Nat → Rat) (j : Nat) : EVal × EVal :=
+  objBnd (optsForRow r opts j).1 (vals j) (optsForRow r opts j).2
+
 /-! ## state at the start of `optimize()` -/
 
 /-- fresh values a reset can assign -/
